@@ -4037,7 +4037,7 @@ class State:
 
         assert player_index is not None
 
-        if not set(cards) <= set(self.hole_cards[player_index]):
+        if Counter(cards) - Counter(self.hole_cards[player_index]):
             raise ValueError(
                 (
                     f'The discarded cards {repr(cards)} must be a subset of'
